@@ -3066,7 +3066,13 @@ func (h *ResponseHeader) parseHeaders(buf []byte) (int, error) {
 				if bytes.Equal(s.value, strClose) {
 					h.connectionClose = true
 				} else {
-					h.connectionClose = false
+					// Connection options are case-insensitive tokens that may come
+					// in a list and on several field lines (RFC 9110 section 7.6.1):
+					// 'close' anywhere among them asks for the connection to be closed,
+					// and a later line cannot take that back.
+					if hasHeaderValue(s.value, strClose) {
+						h.connectionClose = true
+					}
 					h.h = appendArgBytes(h.h, s.key, s.value, argsHasValue)
 				}
 				continue
@@ -3257,7 +3263,13 @@ func (h *RequestHeader) parseHeaders(buf []byte, blockEnd int) (int, error) {
 				if bytes.Equal(s.value, strClose) {
 					h.connectionClose = true
 				} else {
-					h.connectionClose = false
+					// Connection options are case-insensitive tokens that may come
+					// in a list and on several field lines (RFC 9110 section 7.6.1):
+					// 'close' anywhere among them asks for the connection to be closed,
+					// and a later line cannot take that back.
+					if hasHeaderValue(s.value, strClose) {
+						h.connectionClose = true
+					}
 					h.h = appendArgBytes(h.h, s.key, s.value, argsHasValue)
 				}
 				continue
